@@ -21,6 +21,16 @@ import KavaVerif.Model.Accumulator
   c09.sumle  src T s                                Σ listed users' shares ≤ total (delegations: the validator's own)
   c09.bound  src nusers nsyncs emission sumT credited
   c09.integral src u nsyncU gained flo slack        the owner's synchronised claim against the harness's own time integral
+                                                    (multi-instance world: summed over the instances of the claim object
+                                                     that credit the reward denom)
+
+  One claim object fed by several instances (harness multi.go); for one owner u and one reward denom,
+  r = stored claim reward, Is / ss / is = per instance: global index, u's shares, u's stored index ("x" absent):
+  c09.mchange src u r Is ss is => cls r' ss' is' othersPre othersPost     one source-module message on u's positions
+  c09.mpend   src u r Is ss is => synced                                  Synchronize…Claim / GetSynchronized…Claim
+  c09.mclaim  src u solo factor now claimEnd macc r Is ss is => cls r' is' paid maccDelta second othersPre othersPost
+              `second` = "<cls>:<amount>" of the same claim message repeated immediately; others… = digest of
+              every other (user, claim object): stored rewards, stored indexes, source shares
 -/
 namespace Drv.C09
 open KV KV.Acc
@@ -308,6 +318,119 @@ def handleIntegral : Handler
     | _, _, _, _ => badInput "parse"
   | _ => badInput "arity"
 
+/-! ### one claim object fed by several instances -/
+
+/-- the instances of a group from the observed lists (an absent stored index as in `effIdx`) -/
+def mkInsts (Is ss : List Int) (is : List (Option Int)) : List Inst :=
+  (range Is.length).map fun k =>
+    let I := Is.getD k 0
+    let s := ss.getD k 0
+    { I := I, s := s, i := effIdx I s (is.getD k none) }
+
+def sumInts (l : List Int) : Int := l.foldl (· + ·) 0
+
+/-- one source-module message on the positions of `u`: `C09_frame` / `C09_frame_own` for a claim object fed
+    by several instances.  Every instance whose shares changed was synchronised (stored index = global
+    index afterwards); every stored index was either kept or set to the global one; the owner's reward grew
+    by exactly the pending amounts (PRE-change shares) of the instances that were synchronised; nobody
+    else's claim, and no other claim object of `u`, moved. -/
+def handleMChange : Handler
+  | [src, u, rS, IsS, ssS, isS, _, cls, rS', ssS', isS', oPre, oPost] =>
+    match int? rS, ints? IsS, ints? ssS, optInts? isS with
+    | some r, some Is, some ss, some is =>
+      let kd := kindOf src
+      if oPre != oPost then predfail "C09_frame" s!"{kd}-other-claim-or-position-changed src={src} user={u}"
+      else if cls != "ok" then
+        -- a failed message is rolled back: nothing may change
+        if rS' == rS && ssS' == ssS && isS' == isS then "ok"
+        else predfail "C09_frame" s!"{kd}-failed-op-changed-state src={src} user={u}"
+      else
+      match int? rS', ints? ssS', optInts? isS' with
+      | some r', some ss', some is' =>
+        let xs := mkInsts Is ss is
+        let n := Is.length
+        let bad := (range n).findSome? fun k =>
+          let changed := ss'.getD k 0 != ss.getD k 0
+          let synced := idxEq (Is.getD k 0) (ss'.getD k 0) (is'.getD k none)
+          let untouched := is'.getD k none == is.getD k none
+          if changed && !synced then some s!"{kd}-share-change-without-sync-of-pre-change-shares src={src} user={u} instance={k}"
+          else if !synced && !untouched then some s!"{kd}-stored-index-neither-kept-nor-global src={src} user={u} instance={k}"
+          else none
+        match bad with
+        | some t => predfail "C09_frame" t
+        | none =>
+          let want := r + sumInts ((range n).map fun k =>
+            if ss'.getD k 0 != ss.getD k 0 || is'.getD k none != is.getD k none then (xs.getD k default).pending else 0)
+          if r' < r then predfail "C09_frame" s!"{kd}-accrued-reward-decreased src={src} user={u}"
+          else if r' != want then
+            predfail "C09_frame" s!"{kd}-own-reward-changed-by-other-than-pending-of-synchronised-instances src={src} user={u} want={want} got={r'}"
+          else "ok"
+      | _, _, _ => badInput "post"
+    | _, _, _, _ => badInput "parse"
+  | _ => badInput "arity"
+
+/-- the synchronised claim the keeper reports: stored reward + Σ over the instances of the pending reward
+    (each within the two half-even roundings of `CalculateSingleReward`) -/
+def handleMPend : Handler
+  | [src, u, rS, IsS, ssS, isS, _, gotS] =>
+    match int? rS, ints? IsS, ints? ssS, optInts? isS, int? gotS with
+    | some r, some Is, some ss, some is, some got =>
+      let kd := kindOf src
+      let xs := mkInsts Is ss is
+      let n : Int := xs.length
+      let exact := sumInts (xs.map fun x => (x.I - x.i) * x.s)
+      let g := got - r
+      if xs.any (fun x => x.I - x.i < 0) then predfail "C09_integral" s!"{kd}-index-above-global src={src} user={u}"
+      else if 2 * (g * P * P - exact) > n * (P * P + P) || 2 * (exact - g * P * P) > n * (P * P + P) then
+        predfail "C09_integral" s!"{kd}-synchronised-claim-differs-from-stored-plus-pending src={src} user={u} reported={got} stored={r} pending={pendingSum xs}"
+      else match syncAllFrom r xs with
+        | .ok (r', _) => expectEq "synced" (toString r') (toString got)
+        | res => mismatch "class" (clsOf res) "ok"
+    | _, _, _, _, _ => badInput "parse"
+  | _ => badInput "arity"
+
+/-- `C09_claim` for a claim object fed by several instances: the claim pays
+    roundInt((stored reward + Σ_instances pending) · multiplier) out of the incentive account, resets the
+    reward, leaves every other claim alone, and the same claim repeated immediately pays nothing. -/
+def handleMClaim : Handler
+  | [src, u, solo, factor, now, claimEnd, macc, rS, IsS, ssS, isS, _, cls, rS', isS', paid, maccDelta, second, oPre, oPost] =>
+    match bool? solo, int? factor, int? now, int? claimEnd, int? macc, int? rS, ints? IsS, ints? ssS, optInts? isS with
+    | some solo, some factor, some now, some claimEnd, some macc, some r, some Is, some ss, some is =>
+      let kd := kindOf src
+      let xs := mkInsts Is ss is
+      let accrued := r + pendingSum xs
+      let pay := Dec.roundInt (Dec.mul (Dec.ofInt accrued) ⟨factor⟩)
+      let res := mclaim ⟨r, xs⟩ factor now claimEnd macc
+      if oPre != oPost then predfail "C09_frame" s!"{kd}-claim-changed-other-claim-or-position src={src} user={u}"
+      else if cls != "ok" then
+        -- refused: after the deadline always; otherwise only a zero payout / an empty incentive account
+        -- (a message claiming several denoms is refused as a whole when one of them is)
+        if solo && now ≤ claimEnd && pay > 0 && pay ≤ macc then predfail "C09_claim" s!"{kd}-refused-payable-claim src={src} user={u} accrued={accrued}"
+        else if rS' != rS || isS' != isS then predfail "C09_claim" s!"{kd}-failed-claim-changed-state src={src} user={u}"
+        else if solo then expectEq "class" (clsOf res) cls
+        else "ok"
+      else
+      match int? rS', optInts? isS', int? paid, int? maccDelta with
+      | some r', some is', some paid, some maccDelta =>
+        let secondPaid := (int? ((second.splitOn ":").getD 1 "")).getD 0
+        if now > claimEnd then predfail "C09_claim" s!"{kd}-accepted-after-claim-end src={src} user={u}"
+        else if paid != pay then
+          predfail "C09_claim" s!"{kd}-paid-not-accrued-times-multiplier src={src} user={u} paid={paid} accrued={accrued} stored={r} pending={pendingSum xs} expected={pay}"
+        else if maccDelta != -paid then predfail "C09_claim" s!"{kd}-not-paid-from-incentive-account src={src} user={u}"
+        else if r' != 0 then predfail "C09_claim" s!"{kd}-claim-not-reset src={src} user={u} left={r'}"
+        else if paid == 0 then predfail "C09_claim" s!"{kd}-zero-claim-accepted src={src} user={u}"
+        else if secondPaid != 0 then predfail "C09_claim" s!"{kd}-immediate-second-claim-paid src={src} user={u} second={second}"
+        else match res with
+          | .ok (c', p) =>
+            allOk ([expectEq "paid" (toString p) (toString paid), expectEq "r" (toString c'.r) (toString r')] ++
+              (range xs.length).map fun k =>
+                if idxEq (c'.xs.getD k default).i (ss.getD k 0) (is'.getD k none) then "ok"
+                else mismatch s!"i{k}" (toString (c'.xs.getD k default).i) (toString (is'.getD k none)))
+          | rr => mismatch "class" (clsOf rr) cls
+      | _, _, _, _ => badInput "post"
+    | _, _, _, _, _, _, _, _, _ => badInput "parse"
+  | _ => badInput "arity"
+
 def handleSecs : Handler
   | [d, _, secs] =>
     match int? d with
@@ -328,6 +451,9 @@ def handlers : List (String × Handler) := [
   ("c09.sum", handleSum),
   ("c09.sumle", handleSumLe),
   ("c09.bound", handleBound),
-  ("c09.integral", handleIntegral)
+  ("c09.integral", handleIntegral),
+  ("c09.mchange", handleMChange),
+  ("c09.mpend", handleMPend),
+  ("c09.mclaim", handleMClaim)
 ]
 end Drv.C09
